@@ -144,4 +144,6 @@ var uncertainErrList = []error{
 	tikverr.ErrBodyMissing,
 	tikverr.ErrTiKVServerTimeout,
 	tikverr.ErrUnknown,
+	// the reply to the commit of the primary key was lost: it may have been applied
+	tikverr.ErrResultUndetermined,
 }
